@@ -3,12 +3,12 @@
    No Extract Constant, no further Extract Inductive. *)
 From Coq Require Import ZArith List.
 From Coq Require Extraction ExtrOcamlBasic.
-From BM Require Import Model.Layout Model.View Model.Spec Model.Iter Model.Rebase Model.ProjectC12 Model.ProjectC12Walk.
+From BM Require Import Model.Layout Model.View Model.Spec Model.Iter Model.Rebase Model.ProjectC12Based Model.ProjectC12 Model.ProjectC12Walk.
 Extraction Language OCaml.
 Extraction "modelc12.ml"
   root_view dom_op exec_op v_rank v_size v_extension diag_ok
   l_sizes l_extensions l_strides l_offsets l_num_elements l_is_empty
-  p_embed p_ptr p_addr_brackets p_addr p_exec_op p_dom_op p_exec_proj p_dom_proj p_dom_proj_based
+  p_embed p_ptr p_addr_brackets p_addr p_exec_op p_dom_op p_exec_proj p_dom_proj dom_scale_b l_scale_b
   convert_construct convert_iter_pair convert_flat convert_assign c_at e_begin
   p_it_begin p_it_end p_it_deref p_it_index p_rit_deref p_rit_index p_index
   it_inc it_dec it_add it_sub it_diff
